@@ -197,6 +197,13 @@ type vGen struct {
 	certSeq uint64
 	// weights may be tuned per property
 	W map[string]int
+	// WrongSigner: probability (num/den) that a random step is signed by
+	// somebody else
+	WrongSigner [2]int
+	// AtEnd runs after the random steps
+	AtEnd func(g *vGen)
+	// ForceTemplate is always run first in histories with an even index
+	ForceTemplate string
 }
 
 var vKinds = []string{
@@ -218,7 +225,7 @@ func vDefaultWeights() map[string]int {
 }
 
 func vNewGen(h *vHist) *vGen {
-	return &vGen{h: h, r: h.rng, certs: map[string][]*big.Int{}, W: vDefaultWeights()}
+	return &vGen{h: h, r: h.rng, certs: map[string][]*big.Int{}, W: vDefaultWeights(), WrongSigner: [2]int{1, 14}}
 }
 
 func (g *vGen) anyActor() *vActor { return g.h.c.actors[g.r.Intn(len(g.h.c.actors))] }
@@ -626,8 +633,11 @@ func (g *vGen) Next() *vTxObs {
 	st := g.step(kind)
 	signer := st.Signer
 	note := kind
-	if g.r.Chance(1, 14) {
+	if g.r.Chance(g.WrongSigner[0], g.WrongSigner[1]) {
 		signer = g.otherThan(st.Signer)
+		if g.r.Chance(1, 3) {
+			return g.h.DoForged(note+"/forged-signature", g.gap(), signer, st.Signer, st.Msgs...)
+		}
 		note += "/wrong-signer"
 	}
 	return g.h.DoNote(note, g.gap(), signer, st.Msgs...)
@@ -1047,6 +1057,14 @@ func vRunRandomHistory(h *vHist, nTemplates, nRandom int, tune func(g *vGen)) {
 		}
 	}
 	scs := vScenarios()
+	if g.ForceTemplate != "" && h.rng.Bool() {
+		for _, sc := range scs {
+			if sc.Name == g.ForceTemplate {
+				h.shape = append(h.shape, sc.Name)
+				sc.Run(g)
+			}
+		}
+	}
 	for i := 0; i < nTemplates; i++ {
 		sc := scs[h.rng.Intn(len(scs))]
 		h.shape = append(h.shape, sc.Name)
@@ -1054,5 +1072,8 @@ func vRunRandomHistory(h *vHist, nTemplates, nRandom int, tune func(g *vGen)) {
 	}
 	for i := 0; i < nRandom && !h.stopped; i++ {
 		g.Next()
+	}
+	if g.AtEnd != nil {
+		g.AtEnd(g)
 	}
 }
